@@ -81,25 +81,25 @@ PROPS = {
         'assumptions': [],
     },
     'C01': {
-        'modules': [],
+        'modules': ['SE.Props.C01', 'SE.Gen.TieRegistry'],
         'streams': [{'component': 'pipe_c01', 'note_kinds': set()}],
-        'level': 'translation_validation',
+        'level': 'proof',
         'trusted_base': ["client_golang v1.22.0 (vector constructors, child creation and its panics, counter/gauge/histogram/summary updates, Delete, Gather's family checks) and perks' Query fast path are modelled by hand from their sources (SE/Model/Registry.lean)", 'FNV-64 label-hash collisions assumed away', 'IEEE float64 = Lean Float in the driver; strconv.ParseFloat and regexp results shipped by the harness', 'yaml.v2 decodes the rendered configuration to the intended fields'],
-        'assumptions': [_TV_NOTE],
+        'assumptions': [],
     },
     'C02': {
-        'modules': [],
+        'modules': ['SE.Props.C02', 'SE.Gen.TieLine'],
         'streams': [{'component': 'pipe_c02', 'note_kinds': {'panic', 'mult'}}],
-        'level': 'translation_validation',
+        'level': 'proof',
         'trusted_base': ["client_golang v1.22.0 (vector constructors, child creation and its panics, counter/gauge/histogram/summary updates, Delete, Gather's family checks) and perks' Query fast path are modelled by hand from their sources (SE/Model/Registry.lean)", 'FNV-64 label-hash collisions assumed away', 'IEEE float64 = Lean Float in the driver; strconv.ParseFloat and regexp results shipped by the harness', 'yaml.v2 decodes the rendered configuration to the intended fields'],
-        'assumptions': [_TV_NOTE],
+        'assumptions': [],
     },
     'C03': {
-        'modules': [],
+        'modules': ['SE.Props.C03', 'SE.Gen.TieRegistry'],
         'streams': [{'component': 'pipe_c03', 'note_kinds': {'gather'}}],
-        'level': 'translation_validation',
+        'level': 'proof',
         'trusted_base': ["client_golang v1.22.0 (vector constructors, child creation and its panics, counter/gauge/histogram/summary updates, Delete, Gather's family checks) and perks' Query fast path are modelled by hand from their sources (SE/Model/Registry.lean)", 'FNV-64 label-hash collisions assumed away', 'IEEE float64 = Lean Float in the driver; strconv.ParseFloat and regexp results shipped by the harness', 'yaml.v2 decodes the rendered configuration to the intended fields'],
-        'assumptions': [_TV_NOTE],
+        'assumptions': [],
     },
     'C05': {
         'modules': ['SE.Props.C05'],
@@ -130,11 +130,11 @@ PROPS = {
         'assumptions': [],
     },
     'C19': {
-        'modules': [],
+        'modules': ['SE.Props.C19', 'SE.Gen.TieMapper'],
         'streams': [{'component': 'pipe_c19', 'note_kinds': {'panic', 'gather'}}],
-        'level': 'translation_validation',
+        'level': 'proof',
         'trusted_base': ["client_golang v1.22.0 (vector constructors, child creation and its panics, counter/gauge/histogram/summary updates, Delete, Gather's family checks) and perks' Query fast path are modelled by hand from their sources (SE/Model/Registry.lean)", 'FNV-64 label-hash collisions assumed away', 'IEEE float64 = Lean Float in the driver; strconv.ParseFloat and regexp results shipped by the harness', 'yaml.v2 decodes the rendered configuration to the intended fields'],
-        'assumptions': [_TV_NOTE],
+        'assumptions': [],
     },
     'C16': {
         'modules': ['SE.Props.C16', 'SE.Proofs.QueueDriver', 'SE.Gen.TieSync'],
